@@ -51,7 +51,7 @@ fn st_line(s: &St) -> Vec<String> {
     }
 }
 
-fn gen_p(rng: &mut Rng, u: &[&str]) -> Vec<String> { sv(&[*rng.pick(u), *rng.pick(&["d1", "d2", "d1", "d2", "alice"]), "read", *rng.pick(&["allow", "allow", "deny"])]) }
+fn gen_p(rng: &mut Rng, u: &[&str]) -> Vec<String> { sv(&[*rng.pick(u), *rng.pick(&["d1", "d2", "d1", "d2", "alice", "1", "true"]), "read", *rng.pick(&["allow", "allow", "deny"])]) }
 
 fn gen_step(rng: &mut Rng) -> St {
     let subs = ["alice", "bob", "admin"];
@@ -113,7 +113,9 @@ pub fn run(rec: &mut Recorder, w: &mut World, tier: &str, seed: u64) {
     for s in ["alice", "bob", "admin"] { for o in ["d1", "d2"] { reqs.push(sv(&[s, o, "read"])); } }
     // the same values in other positions and repeated values: distinct requests whose field multisets collide
     for r in [["d1", "alice", "read"], ["read", "d1", "alice"], ["alice", "alice", "read"], ["bob", "bob", "read"], ["d1", "d1", "read"], ["d2", "admin", "read"]] { reqs.push(sv(&r)); }
-    let reqf = reqs_field(&reqs);
+    // a number or a boolean and the string spelled the same way are different requests (asked in this order: the typed one
+    // first, so that a cache keyed by the printed value would hand its answer to the string request)
+    let reqf = format!("{};s:alice,i:1,s:read;s:alice,s:1,s:read;s:bob,b:true,s:read;s:bob,s:true,s:read;s:admin,s:1,s:read;s:admin,i:1,s:read", reqs_field(&reqs));
     // exhaustive: every history of length <= L over a fixed alphabet covering the whole mutating surface
     let subs = ["alice", "bob", "admin"];
     let _ = subs;
@@ -121,10 +123,14 @@ pub fn run(rec: &mut Recorder, w: &mut World, tier: &str, seed: u64) {
         St::M(MOp::Add("p".into(), "p".into(), sv(&["alice", "d1", "read", "allow"]))),
         St::M(MOp::Add("p".into(), "p".into(), sv(&["admin", "d2", "read", "allow"]))),
         St::M(MOp::Add("p".into(), "p".into(), sv(&["alice", "alice", "read", "allow"]))),
+        St::M(MOp::Add("p".into(), "p".into(), sv(&["alice", "1", "read", "allow"]))),
         St::M(MOp::Add("p".into(), "p2".into(), sv(&["bob", "d1", "read", "allow"]))),
         St::M(MOp::Add("g".into(), "g".into(), sv(&["alice", "admin"]))),
         St::M(MOp::AddM("g".into(), "g".into(), vec![sv(&["bob", "admin"]), sv(&["bob"])])),
         St::M(MOp::Rm("p".into(), "p".into(), sv(&["alice", "d1", "read", "allow"]))),
+        // one batch naming the same rule twice (the call succeeds and the rule is added / removed once)
+        St::M(MOp::AddM("p".into(), "p".into(), vec![sv(&["alice", "d1", "read", "allow"]), sv(&["alice", "d1", "read", "allow"])])),
+        St::M(MOp::RmM("p".into(), "p".into(), vec![sv(&["alice", "d1", "read", "allow"]), sv(&["alice", "d1", "read", "allow"])])),
         St::M(MOp::Clear), St::Load, St::LoadF, St::SetModel(1), St::SetModel(2), St::SetModel(3),
         St::SetAdapter(vec![sv(&["p", "p", "bob", "d2", "read", "allow"])]), St::SetRm, St::Build,
         St::Enable(false), St::Enable(true), St::Notify(false), St::M(MOp::RmF("p".into(), "p".into(), 0, sv(&["alice"]))), St::SetEft, St::AddFn, St::AutoBuild(false), St::AutoBuild(true), St::AutoSave(false),
@@ -143,7 +149,20 @@ pub fn run(rec: &mut Recorder, w: &mut World, tier: &str, seed: u64) {
     }
     let n_ex = hists.len();
     let n_rand = (if tier == "thorough" { 1200 } else { 120 }) * rec.budget as usize;
-    for _ in 0..n_rand { let len = 2 + rng.below(if tier == "thorough" { 150 } else { 40 }); hists.push((0..len).map(|_| gen_step(&mut rng)).collect()); }
+    for _ in 0..n_rand {
+        let len = 2 + rng.below(if tier == "thorough" { 150 } else { 40 });
+        let mut h: Vec<St> = vec![];
+        while h.len() < len {
+            if rng.chance(1, 10) {
+                // a batch that names one rule twice: added in one call, or stored first and then removed by such a batch
+                let (sec, pt, r) = if rng.chance(2, 3) { ("p", *rng.pick(&["p", "p2"]), gen_p(&mut rng, &subs)) } else { ("g", "g", sv(&[*rng.pick(&subs), *rng.pick(&["admin", "bob"])])) };
+                if rng.chance(1, 2) { h.push(St::M(MOp::AddM(sec.into(), pt.into(), vec![r.clone(), r]))); }
+                else { h.push(St::M(MOp::Add(sec.into(), pt.into(), r.clone()))); h.push(St::M(MOp::RmM(sec.into(), pt.into(), vec![r.clone(), r]))); }
+                rec.count("shape:batch-with-repeated-rule");
+            } else { h.push(gen_step(&mut rng)); }
+        }
+        hists.push(h);
+    }
     for (hi, hist) in hists.iter().enumerate() {
         rec.begin();
         let cached = run_once(rec, w, true, hist, &reqf);
